@@ -120,6 +120,10 @@ func (p *c20NR) RegisterFuncs(reg renderer.NodeRendererFuncRegisterer) {
 			} else {
 				_, _ = w.WriteString("<" + p.name + " " + what + "]\n")
 			}
+			if p.name == "NR2" && what == "mid" {
+				// this renderer handles its children itself: the nodes that follow must be unaffected
+				return ast.WalkSkipChildren, nil
+			}
 			return ast.WalkContinue, nil
 		}
 	}
@@ -341,16 +345,18 @@ func modelRender(c c20Cfg) string {
 		b.WriteString("<pre><code>x\n</code></pre>\n")
 	}
 	b.WriteString("<p>low-child</p>\n")
-	if w := win(1); w != "" {
+	if w := win(1); w == "NR2" {
+		b.WriteString("[NR2 mid><NR2 mid]\n") // NR2 skips the children of the node it renders
+	} else if w != "" {
 		b.WriteString("[" + w + " mid><p>mid-child</p>\n<" + w + " mid]\n")
 	} else {
 		b.WriteString("<p>mid-child</p>\n")
 	}
-	b.WriteString("<p>high-child</p>\n<p>tail</p>\n")
+	b.WriteString("<p>high-child</p>\n<p>tail <!-- raw HTML omitted -->INy<!-- raw HTML omitted --> z</p>\n")
 	return b.String()
 }
 
-const c20RenderDoc = "```\nx\n```\n\nlow-child\n\nmid-child\n\nhigh-child\n\ntail\n"
+const c20RenderDoc = "```\nx\n```\n\nlow-child\n\nmid-child\n\nhigh-child\n\ntail <b>y</b> z\n"
 
 // c20RenderTree parses c20RenderDoc and wraps three of its paragraphs into probe nodes of kinds Low, Mid and High.
 func c20RenderTree(md goldmark.Markdown) ast.Node {
@@ -359,6 +365,18 @@ func c20RenderTree(md goldmark.Markdown) ast.Node {
 	for c := doc.FirstChild(); c != nil; c = c.NextSibling() {
 		if c.Kind() == ast.KindParagraph {
 			paras = append(paras, c)
+		}
+	}
+	// an inline node of a kind without renderer function, holding the text "IN", directly behind the raw HTML node <b>
+	// (whose built-in renderer answers WalkSkipChildren)
+	if tail := paras[len(paras)-1]; tail != nil {
+		for c := tail.FirstChild(); c != nil; c = c.NextSibling() {
+			if c.Kind() == ast.KindRawHTML {
+				in := &c20Inline{kind: c20KindInline}
+				in.AppendChild(in, ast.NewString([]byte("IN")))
+				tail.InsertAfter(tail, c, in)
+				break
+			}
 		}
 	}
 	for i, k := range []ast.NodeKind{c20KindLow, c20KindMid, c20KindHigh} {
